@@ -58,7 +58,7 @@ def describe(tier):
                    else 'the FULL box keys 0..80 x messages 0..200 x outputs 1..200'),
         'bounds': 'quick: boundary grid; thorough: full box 81 x 201 x 200 per digest',
         'assumptions': ['key and message bytes are DRBG values (one per length); distinctness is decided on a 2000-element DRBG set'],
-        'must_be_nonzero': ['prf-equal-reference', 'hash-equal-reference', 'tls-vector', 'contract-refused', 'distinct-set', 'prf-histories'],
+        'must_be_nonzero': ['prf-equal-reference', 'hash-equal-reference', 'tls-vector', 'hash-long-output-equal-reference', 'prf-long-output-equal-reference', 'contract-refused', 'distinct-set', 'prf-histories'],
     }
 
 
@@ -118,6 +118,22 @@ def run_unit(p, tier, seed):
                 r['transitions'] += 1
                 if impls[n](key, msg) != impls[n](key, msg):
                     r.v(PROPERTY, 'HmacPRF', 'determinism', 'repeat', {'digest': h, 'key_length': kl, 'message_length': ml, 'output_length': n}, 'equal', 'differs')
+            # outputs of hundreds of HMAC blocks, messages of several KiB (one key per unit)
+            if kl == p['keys'][0]:
+                for ml, n in ((0, 255 * ds + 1), (5, 256 * ds), (200, 257 * ds + 5), (5000, 40), (5000, 3 * ds + 1), (4096, ds), (4097, 2 * ds), (70000, ds + 1)):
+                    msg = g.randbytes(ml)
+                    r['evaluations'] += 1
+                    r['transitions'] += 1
+                    c_ = {'digest': h, 'key_length': kl, 'message_length': ml, 'output_length': n}
+                    try:
+                        got = PRF(output_length=n, hash_func_name=h)(key, msg)
+                    except Exception as e:
+                        r.v(PROPERTY, 'HmacPRF', 'raises', '%s:%s' % (core.exc_site(e), type(e).__name__), c_, 'n bytes', core.exc_text(e))
+                        continue
+                    if got != p_hash(key, msg, n, h):
+                        r.v(PROPERTY, 'HmacPRF', 'differs-from-rfc5246', 'long-output-or-message', c_, 'reference P_hash', 'differs (%d bytes returned)' % len(got))
+                    else:
+                        r.count('prf-long-output-equal-reference')
         r.outcome('prf-ok/' + h)
         r.sample({'prim': 'HmacPRF', 'digest': h, 'key_lengths': p['keys'], 'message_lengths': [msgs[0], msgs[-1]], 'output_lengths': [outs[0], outs[-1]]})
     elif kind == 'hash':
@@ -144,6 +160,26 @@ def run_unit(p, tier, seed):
                     r.v(PROPERTY, 'hash-wrapper', 'differs-from-reference', 'length' if len(got) != n else 'value', case, ref.hex(), got.hex())
                 else:
                     r.count('hash-equal-reference')
+        # outputs of hundreds of blocks: around the point where a block counter needs a second byte, and far beyond
+        ds_ = 32 if h.startswith('shake') else hashlib.new(h).digest_size
+        for ml in (0, 1, 5, 64, 200):
+            msg = g.randbytes(ml)
+            for n in (255 * ds_ - 1, 255 * ds_, 255 * ds_ + 1, 256 * ds_, 256 * ds_ + 3, 257 * ds_ + 5, 70000):
+                r['evaluations'] += 1
+                r['transitions'] += 1
+                case = {'hash': h, 'message_length': ml, 'output_length': n}
+                try:
+                    got = H(output_length=n)(msg)
+                except Exception as e:
+                    r.v(PROPERTY, 'hash-wrapper', 'raises', '%s:%s' % (core.exc_site(e), type(e).__name__), case, 'n bytes', core.exc_text(e))
+                    continue
+                ref = hashlib.new(h, msg).digest(n) if h.startswith('shake') else ctr_hash(msg, n, h)
+                if got != ref:
+                    first = next((i for i in range(min(len(got), len(ref))) if got[i] != ref[i]), min(len(got), len(ref)))
+                    r.v(PROPERTY, 'hash-wrapper', 'differs-from-reference', 'long-output/' + ('length' if len(got) != n else 'value'), case,
+                        'reference expansion', 'first difference at byte %d of %d' % (first, n))
+                else:
+                    r.count('hash-long-output-equal-reference')
         for alias in (h.upper(), h):
             try:
                 if get_hash_implementation(alias)(output_length=7)(b'abc') != (hashlib.new(h, b'abc').digest(7) if h.startswith('shake') else ctr_hash(b'abc', 7, h)):
